@@ -93,9 +93,27 @@ class GhostPool:
     def map(self, fn, iterable):
         args = list(self.interp.models.concrete_iter(self.interp, iterable))
         self.submitted += args
-        return [self.interp.call_value(fn, [a], {}) for a in args]      # results in submission order (contract)
+        return [self.interp.call_value(fn, [self._ship(a)], {}) for a in args]      # results in submission order (contract)
+
+    def _ship(self, arg):
+        """what the task sees: the very objects under a thread pool; under a process pool a pickled copy, so that lists and
+        dicts inside the argument tuple are private to the task (builtin containers are copied, everything else is shared
+        with the ghost -- identity of FileInfo / handler objects is not observable through the contract)"""
+        if self.kind != "process":
+            return arg
+
+        def cp(v):
+            if type(v) is list:
+                return [cp(x) for x in v]
+            if type(v) is tuple:
+                return tuple(cp(x) for x in v)
+            if type(v) is dict:
+                return {k: cp(x) for k, x in v.items()}
+            return v
+        return cp(arg)
 
     def submit(self, fn, arg):
+        arg = self._ship(arg)
         self.submitted.append(arg)
         self.in_flight += 1
         self.max_in_flight = max(self.max_in_flight, self.in_flight)
@@ -196,6 +214,16 @@ def thm_map():
             ensures([r[0] for r in res2] == files and [r[1] for r in res2] == [(f.path, f.attr["n"]) for f in files],
                     id="map(return_info): results paired with their FileInfo [%d files, %s workers]" % (k, workers))
             ensures(fs.handler.reads == [f.path for f in files], id="every file is read exactly once [%d files, %s workers]" % (k, workers))
+            # extra positional / keyword arguments, given as a list the caller keeps using (docstring: 'a list/tuple')
+            shared, shared_kw = ["A", 7], {"b": 1}
+            res3 = fs.map(lambda *a, **kw: (tuple(x.path if isinstance(x, FileInfo) else x for x in a), tuple(sorted(kw.items()))),
+                          files=files, args=shared, kwargs=shared_kw, max_workers=workers, worker_type=wtype)
+            ensures(res3 == [(("A", 7, f.path), (("b", 1),)) for f in files],
+                    id="map(args=list, kwargs=dict): every task gets exactly the given extra arguments and its own file [%d files, %s workers]" % (k, workers))
+            res4 = list(fs.imap(lambda *a, **kw: (tuple(x.path if isinstance(x, FileInfo) else x[1] if isinstance(x, tuple) else x for x in a), tuple(sorted(kw.items()))),
+                                files=files, args=shared, kwargs=shared_kw, on_content=True, pass_info=True, max_workers=workers, worker_type=wtype))
+            ensures(res4 == [(("A", 7, f.path, f.path), (("b", 1),)) for f in files],
+                    id="imap(args=list, on_content, pass_info): extra arguments, then the content, then the file info [%d files, %s workers]" % (k, workers))
 
 
 @theorem(P, "imap-lazy-bounded")
